@@ -72,12 +72,22 @@ class Ctx:
             return self.drv
         ensure_shim()
         t0 = time.time()
+        modargs = []
         try:
-            shutil.copyfile(os.path.join(REPO, "go.sum"), os.path.join(HARNESS, "go.sum"))
+            if os.path.realpath(REPO) == "/repo":
+                shutil.copyfile(os.path.join(REPO, "go.sum"), os.path.join(HARNESS, "go.sum"))
+            else:
+                # checks against another checkout (a scratch worktree with a seeded change): same
+                # harness sources, alternative module file pointing at that checkout
+                alt = os.path.join(self.work, "alt.mod")
+                txt = open(os.path.join(HARNESS, "go.mod")).read().replace("=> /repo", "=> " + os.path.realpath(REPO))
+                open(alt, "w").write(txt)
+                shutil.copyfile(os.path.join(REPO, "go.sum"), os.path.join(self.work, "alt.sum"))
+                modargs = ["-modfile=" + alt]
         except Exception as e:
             raise Infra("cannot copy go.sum: %s" % e)
         out = os.path.join(self.work, "drv")
-        p = subprocess.run(["go", "build", "-tags", "verif", "-o", out, "./cmd/drv"], cwd=HARNESS,
+        p = subprocess.run(["go", "build"] + modargs + ["-tags", "verif", "-o", out, "./cmd/drv"], cwd=HARNESS,
                            env=go_env(), stdout=subprocess.PIPE, stderr=subprocess.STDOUT, text=True)
         if p.returncode != 0:
             raise Infra("harness does not build against /repo:\n" + p.stdout[-4000:])
